@@ -173,6 +173,7 @@ SendMsgsAll(K) ==
     : s \in SRefs(K), bp \in {0, 1, 4, 5}, st \in {None, "a:send"},
       b \in { <<>>,
               << Leaf("storyItem", "I9", "x:senditem") >>,
+              << Leaf("storyItem", None, "x:senditem.noid"), Leaf("p", None, "x:sendp1") >>,     \* an item that has no id
               << Leaf("p", None, "x:sendp1"), Leaf("storyItem", "I9", "x:senditem"),
                  Leaf("p", None, "x:sendp2"), Leaf("storyItem", "I8", "x:senditem2") >>,
               << Leaf("p", None, "e:empty"), Leaf("storyItem", "I9", "x:senditem"),
